@@ -52,6 +52,9 @@ BUDGET = {'quick': dict(examples=1200, max_s=300),
 
 SAMPLES = ['uamiv', 'lateral_boundary', 'humidity', 'vertical_diffusivity',
            'bpch', 'ffi1001']
+BROKEN = [('trunc_humidity', 10), ('trunc_uamiv', 40), ('trunc_bpch', 30),
+          ('trunc_netcdf', 6), ('empty_vertical_diffusivity', 0),
+          ('trunc_ffi1001', 20), ('trunc_lateral_boundary', 500)]
 AMBIGUOUS = {'humidity', 'vertical_diffusivity', 'bpch', 'nc1', 'nc2', 'io'}
 _POOL = {}
 
@@ -81,6 +84,24 @@ def build_fixed_pool(d):
         shutil.copy(sp[k], n)
         pool['s:' + k] = dict(path=s, fmt=k, kind=k, suffix=True)
         pool['n:' + k] = dict(path=n, fmt=k, kind=k, suffix=False)
+    # broken files: prefixes of valid samples and an empty file, under
+    # suffix and neutral names.  Opening them fails (or is at least
+    # unusual); a history containing a failed open must not change later
+    # probes either.
+    for k, nbytes in BROKEN:
+        base = k.split('_', 1)[1]
+        ext = {'netcdf': 'nc'}.get(base, base)
+        with open(sp.get(base, sp['uamiv']), 'rb') as fi:
+            blob = fi.read()[:nbytes]
+        if base == 'netcdf':
+            blob = b'CDF\x01\x00\x00'[:nbytes]
+        s = os.path.join(d, 'sfx_%s.%s' % (k, ext))
+        n = os.path.join(d, 'neutral_%s.dat' % k)
+        for pth in (s, n):
+            with open(pth, 'wb') as fo:
+                fo.write(blob)
+        pool['s:' + k] = dict(path=s, fmt=None, kind=k, suffix=True)
+        pool['n:' + k] = dict(path=n, fmt=None, kind=k, suffix=False)
     gdir = os.path.dirname(sp['bpch'])
     for t in ('tracerinfo.dat', 'diaginfo.dat'):
         shutil.copy(os.path.join(gdir, t), os.path.join(d, t))
@@ -153,6 +174,11 @@ def _main_ref(d):
     for k in SAMPLES:
         pool['s:' + k] = os.path.join(d, 'sfx_%s.%s' % (k, k))
         pool['n:' + k] = os.path.join(d, 'neutral_%s.dat' % k)
+    for k, nbytes in BROKEN:
+        base = k.split('_', 1)[1]
+        ext = {'netcdf': 'nc'}.get(base, base)
+        pool['s:' + k] = os.path.join(d, 'sfx_%s.%s' % (k, ext))
+        pool['n:' + k] = os.path.join(d, 'neutral_%s.dat' % k)
     refs = {}
     for k, p in pool.items():
         libstate.reset()    # every reference is taken with an empty history
@@ -162,7 +188,8 @@ def _main_ref(d):
 
 # ------------------------------------------------------------------ strategy
 POOLKEYS = ['s:' + k for k in SAMPLES] + ['n:' + k for k in SAMPLES] + \
-    ['s:nc1', 'n:nc1', 's:nc2', 'n:nc2', 's:io', 'n:io']
+    ['s:nc1', 'n:nc1', 's:nc2', 'n:nc2', 's:io', 'n:io'] + \
+    ['s:' + k for k, _ in BROKEN] + ['n:' + k for k, _ in BROKEN][:2]
 
 
 @st.composite
@@ -286,6 +313,9 @@ def check_case(case):
         # the history touched
         for key in sorted(set(case['history'])):
             e = pool[key]
+            if e['fmt'] is None:
+                r.label('broken-file-open')
+                continue
             libstate.reset()
             auto = e['ref']
             libstate.reset()
